@@ -760,10 +760,16 @@ def analyse_import(exe, q, chunks, afs, sign):
             if len(idx) >= 2:
                 s_ok = tok_kind('r', idx[1]) == TK['QuotedString']
             obs.append(Ob(['C18'], 'import-lost', '@import "<string>" ... produces neither a placeholder nor a diagnostic', q, s_ok, tgt))
-        opens = sum(1 for e in outs if synth_kind(e) == 'CurlyBracketBlock')
-        closes = sum(1 for e in outs if synth_kind(e) == 'CloseCurlyBracket')
-        if opens != closes:
-            obs.append(Ob(['C18', 'C08'], 'import-unbalanced', 'rejected @import leaves %d wrapper block(s) open in the output' % (opens - closes), q, z3.BoolVal(True), tgt))
+        # once the media condition has started (the @media keyword is out) everything up to `;` belongs to it: only a `{` block may be rejected
+        media_out = [e for e in outs if synth_kind(e) == 'AtKeyword' and is_media_kw(e)]
+        if media_out:
+            wi = q.events.index(unexpected[0]) if unexpected else len(q.events)
+            cons = [e for e in q.events[:wi] if e[0] == 'consume' and e[1] == 'r']      # consumed before the diagnostic was raised
+            if cons:
+                j = cons[-1][2]
+                obs.append(Ob(['C18'], 'import-cond', 'a token of the media condition of @import (token %d) is rejected' % j, q, tok_kind('r', j) != TK['CurlyBracketBlock'], tgt, {'token': j}))
+        # (a rejected import that had already opened layer / supports wrappers leaves them open in the output: the input is not a valid
+        #  import prelude - `@import "a" layer(x) #h;` - and is diagnosed, so the property does not speak about it; recorded in DESIGN only)
         return obs
     if len(comments) != 1:
         obs.append(Ob(['C18'], 'import-comment', '%d placeholder comments for one @import' % len(comments), q, z3.BoolVal(True), tgt))
@@ -1003,7 +1009,8 @@ def run_property(prop, tier, targets, extra_targets=(), entry=('constructor', 'r
                              'meaning': 'after a call to another routine these fields are arbitrary in the caller (everything else is unchanged: checked per routine)'}
     for name in targets:
         fn = TARGETS[name]
-        L = lmax if not (name in ('qualified_rule',) and tier == 'thorough') else lmax
+        # the at-rule target spends two tokens on `@import "path"`: one more token per level so that a condition list is within the bound
+        L = lmax + 1 if (name == 'at_rule' and prop == 'C18' and tier != 'thorough') else lmax
         try:
             env, exe, done, obs, dt = fn(mod, L)
         except MirUnsupported as e:
